@@ -405,7 +405,7 @@ def main():
             rp = json.load(f)
         res = par.run_jobs(target, [{'seed': 0, 'replay': rp['replay']}], 1, timeout=120)
     else:
-        scale = check.scale * (40 if check.thorough else 1)
+        scale = check.scale * (40 if check.thorough else 3)
         nj = check.jobs * (4 if check.thorough else 1)
         jobs = [{'seed': check.seed * 1000003 + i, 'n_injection': int(9600 * scale) // nj, 'n_reply': int(480 * scale) // nj,
                  'n_completion': int(1600 * scale) // nj} for i in range(nj)]
